@@ -87,7 +87,11 @@ def gen_case(rng, tier, method=None):
 def generate(rng, tier):
     n = 140 if tier == "quick" else 2000
     cases = [gen_case(rng, tier, m) for m in METHODS for _ in range(4)]      # every method present whatever the seed
-    return cases + [gen_case(rng, tier) for _ in range(n - len(cases))]
+    cases += [gen_case(rng, tier) for _ in range(n - len(cases))]
+    for c in cases:
+        if c["method"] in STAT and c["noise"] == 0 and not c["eager"] and rng.random() < 0.5:
+            c["warm_noise"] = rng.choice([0.25, 0.5, 1.0])
+    return cases
 
 
 def loop_shape(case):
@@ -177,7 +181,7 @@ def run_impl(case):
         if case["reducer"] != "default":
             kw["reducer"] = case["reducer"]
         if case["method"] in STAT:
-            kw.update(nb_samples=case["nb"], noise=case["noise"])
+            kw.update(nb_samples=case["nb"], noise=case.get("warm_noise", case["noise"]))
         expl = cls(model, **kw)
         n = len(case["xs"])
         xs = np.array(case["xs"], dtype=np.float32).reshape([n] + case["shape"])
@@ -185,6 +189,11 @@ def run_impl(case):
         if rec is not None:
             rec.points, rec.targets = [], []      # drop what the constructor may have evaluated
         tf.random.set_seed(case["seed"])
+        if case.get("warm_noise") is not None:
+            # re-use: a first call with another noise level (graph mode, result discarded), then `noise` is changed
+            # through the public attribute and the same object explains the same shapes again
+            expl.explain(xs, ts)
+            expl.noise = case["noise"]
         out = np.asarray(expl.explain(xs, ts))
     finally:
         tf.config.run_functions_eagerly(False)
